@@ -516,6 +516,17 @@ def cases(tier, seed):
     for before, after in (([2], []), ([], [2]), ([2], [2])):
         for kind, form in (("cp", "flat"), ("noncp", "pairs")):
             add("partial.kron", dict(before=before, after=after, din=2, dout=2, r=3, kind=kind, form=form, entries="mixed-dtype", seed=seed, dimform="list"), "partial_channel/%s/mixed-dtype-family" % form)
+    # operators and operands stored Fortran-ordered
+    for din, dout in ((2, 2), (2, 3), (3, 2)):
+        for kind in ("cp", "noncp"):
+            for form in forms_for(kind, 2) + ["choi"]:
+                base = dict(din=din, dout=dout, r=2, kind=kind, form=form, entries="fortran", seed=seed)
+                add("apply.action", base, "apply_channel/%s/%s/fortran-ordered" % (form, kind))
+                if form != "choi":
+                    add("k2c.formula", base, "kraus_to_choi/%s/%s/fortran-ordered" % (form, kind))
+        add("natrep.vec", dict(din=din, dout=dout, r=2, entries="fortran", seed=seed), "natural_representation/fortran-ordered")
+    for kind, form in (("cp", "flat"), ("noncp", "pairs"), ("noncp", "choi")):
+        add("partial.kron", dict(before=[2], after=[2], din=2, dout=2, r=2, kind=kind, form=form, entries="fortran", seed=seed, dimform="list"), "partial_channel/%s/fortran-ordered" % form)
     for rect in ([2, 3, 4, 2], [3, 2, 2, 4], [1, 4, 2, 2], [4, 1, 3, 3]):
         for field in ("real", "complex"):
             base = dict(rect=rect, r=3, kind="noncp", form="pairs", entries=field, seed=seed)
